@@ -213,7 +213,8 @@ def check(case):
                     yj = _comp(j)
                     end = 1.0 / max(min(yj, 1.0 - yj), 1e-300)
                     for i in (0, 1):
-                        cond = perms[i] * pf[i] / max(abs(j[i]), 1e-300)
+                        # un-cancelled scale: feed-side term or (with back pressure) the permeate-side term ~ total flux
+                        cond = max(perms[i] * pf[i], abs(j[0]) + abs(j[1])) / max(abs(j[i]), 1e-300)
                         require(relerr(j2[i], k * j[i]) <= tol + 1e-13 * max(cond, 1.0) * end,
                                 "permeances x %r: flux %d = %r, expected %r x %r = %r", k, i + 1, j2[i], k, j[i], k * j[i])
                     require(abs(_comp(j2) - _comp(j)) <= tol + 1e-13 * max(perms[0] * pf[0] / max(abs(j[0]), 1e-300),
